@@ -4,20 +4,25 @@ let two64 = Big.shift_left Big.one 64
 let u (z : z) : z = let b = big_of_z z in z_of_big (Big.erem b two64)   (* size_t value of a case-file number *)
 let leg ok file = if ok then "ok" else "contract 1 # " ^ file
 let sp ok = if ok then "ok" else "contract 1"
+(* new probes also name the check that fires: the expression text the handler is given, blanks as '_' *)
+let lege ok file expr = if ok then "ok" else "contract 1 # " ^ file ^ " " ^ expr
+let site_no = function O -> 0 | S O -> 1 | _ -> 2
+let by_site n file e1 e2 = match site_no n with 0 -> "ok" | 1 -> "contract 1 # " ^ file ^ " " ^ e1 | _ -> "contract 1 # " ^ file ^ " " ^ e2
 
-let vec_state k =
-  let s0 = (empty_vec (nat_of_int 4), empty_vec (nat_of_int 4)) in
+let vec_state ?(cap = 4) k =
+  let s0 = (empty_vec (nat_of_int cap), empty_vec (nat_of_int cap)) in
   let xs = List.init k (fun i -> z_of_int (i + 1)) in
   match step pred_of s0 (AssignRange (false, xs)) with Ok (s, _) -> s | _ -> s0
 
 let run_case op t =
   match op with
-  | "vec" ->
+  | "vec" | "vec0" | "vecnt" ->
+      let cap = if op = "vec0" then 0 else 4 in
       let k = next_int t in
       let o = next_str t in
       let a0 = if more t then next_z t else Z0 in
       let a1 = if more t then next_z t else Z0 in
-      let s = vec_state k in
+      let s = vec_state ~cap k in
       let nines n = List.init (max 0 (min n 8)) (fun _ -> z_of_int 7) in
       let small z = let b = big_of_z z in if Big.fits_int b then Big.to_int b else max_int in
       let i0 = small a0 and i1 = small a1 in
@@ -38,11 +43,14 @@ let run_case op t =
         | "asr" -> (Some (AssignRange (false, nines i0)), "static_vector.hpp")
         | "at" | "cat" -> (Some (At (false, a0)), "index.hpp")
         | "fr" -> (Some (Front false), "index.hpp")
-        | "bk" -> (Some (Back false), "static_vector.hpp")
+        | "bk" | "cbk" -> (Some (Back false), "static_vector.hpp")
+        | "cfr" -> (Some (Front false), "index.hpp")
         | "ctor_n" -> (None, "static_vector.hpp")
         | "ctor_nv" -> (None, "static_vector.hpp")
         | "ctor_rg" -> (None, "static_vector.hpp")
         | _ -> raise Not_found in
+      let reversed = (o = "irg" && i1 < 0) || (o = "asr" && i0 < 0) in
+      if reversed then (leg false "static_vector.hpp", sp false) else
       (match vop with
        | Some vo ->
            let m = match step pred_of s vo with Ok _ -> "ok" | Contract -> "contract 1 # " ^ file | _ -> "ub" in
@@ -57,11 +65,11 @@ let run_case op t =
                | InsertN (_, _, n, _) | Resize (_, n) | ResizeVal (_, n, _) | AssignN (_, n, _) | At (_, n) -> Big.gt (big_of_z n) (Big.of_int 64)
                | _ -> false in
              if huge then None else
-             spec_step pred_of (z_of_int 4) (List.init k (fun i -> z_of_int (i + 1)), []) vo' in
+             spec_step pred_of (z_of_int cap) (List.init k (fun i -> z_of_int (i + 1)), []) vo' in
            (m, sp (spec_in <> None))
        | None ->
            (* constructors: TETL_PRECONDITION(n <= capacity()) / range length *)
-           let ok = if o = "ctor_rg" then i0 >= 0 && i0 <= 4 else Big.leq (big_of_z (u a0)) (Big.of_int 4) in
+           let ok = if o = "ctor_rg" then i0 >= 0 && i0 <= cap else Big.leq (big_of_z (u a0)) (Big.of_int cap) in
            (leg ok file, sp ok))
   | "ivec" ->
       let cap = next_int t in let k = next_int t in let o = next_str t in let a = next_z t in
@@ -70,11 +78,11 @@ let run_case op t =
       let s = List.fold_left (fun s i -> match iv_step s (IvTryPush (false, z_of_int i)) with Ok (s', _) -> s' | _ -> s) s0
           (List.init k (fun i -> i + 1)) in
       let io = match o with
-        | "upb" | "ueb" -> IvUncheckedPush (false, z_of_int 9)
+        | "upb" | "ueb" | "upbc" -> IvUncheckedPush (false, z_of_int 9)
         | "pop" -> IvPop false
         | "at" | "cat" -> IvAt (false, a)
-        | "fr" -> IvFront false
-        | "bk" -> IvBack false
+        | "fr" | "cfr" -> IvFront false
+        | "bk" | "cbk" -> IvBack false
         | "tpb" -> IvTryPush (false, z_of_int 9)
         | _ -> raise Not_found in
       let m = match iv_step s io with Ok _ -> "ok" | Contract -> "contract 1 # inplace_vector.hpp" | _ -> "ub" in
@@ -85,64 +93,67 @@ let run_case op t =
   | "span" ->
       let n = next_z t in let o = next_str t in let a = next_z t in let b = next_z t in
       (match o with
-       | "front" -> (leg (span_front n) "span.hpp", sp (pre_nonempty n))
-       | "back" -> (leg (span_back n) "span.hpp", sp (pre_nonempty n))
-       | "idx" -> (leg (span_index n a) "span.hpp", sp (pre_index n (u a)))
-       | "first" -> (leg (span_first n a) "span.hpp", sp (pre_count n (u a)))
-       | "last" -> (leg (span_last n a) "span.hpp", sp (pre_count n (u a)))
-       | _ -> (leg (span_subspan n a b) "span.hpp", sp (pre_span_subspan n (u a) (u b))))
+       | "front" -> (lege (span_front n) "span.hpp" "not_empty()", sp (pre_nonempty n))
+       | "back" -> (lege (span_back n) "span.hpp" "not_empty()", sp (pre_nonempty n))
+       | "idx" -> (lege (span_index n a) "span.hpp" "idx_<_size()", sp (pre_index n (u a)))
+       | "first" -> (lege (span_first n a) "span.hpp" "count_<=_size()", sp (pre_count n (u a)))
+       | "last" -> (lege (span_last n a) "span.hpp" "count_<=_size()", sp (pre_count n (u a)))
+       | _ -> (by_site (span_subspan_site n a b) "span.hpp" "offset_<=_size()" "count_!=_dynamic_extent_?_(count_<=_size()_-_offset)_:_true",
+               sp (pre_span_subspan n (u a) (u b))))
   | "sv" ->
       let n = next_z t in let o = next_str t in let a = next_z t in let b = next_z t in
       let f = "basic_string_view.hpp" in
       (match o with
-       | "idx" -> (leg (sv_index n a) f, sp (pre_index n (u a)))
-       | "front" -> (leg (sv_front n) f, sp (pre_nonempty n))
-       | "back" -> (leg (sv_back n) f, sp (pre_nonempty n))
-       | "rmp" -> (leg (sv_remove_prefix n a) f, sp (pre_count n (u a)))
-       | "rms" -> (leg (sv_remove_suffix n a) f, sp (pre_count n (u a)))
-       | "copy" -> (leg (sv_copy n a b) f, sp (pre_count n (u b)))
-       | _ -> (leg (sv_substr n a b) f, sp (pre_count n (u a))))
+       | "idx" -> (lege (sv_index n a) f "pos_<_size()", sp (pre_index n (u a)))
+       | "front" -> (lege (sv_front n) f "not_empty()", sp (pre_nonempty n))
+       | "back" -> (lege (sv_back n) f "not_empty()", sp (pre_nonempty n))
+       | "rmp" -> (lege (sv_remove_prefix n a) f "n_<=_size()", sp (pre_count n (u a)))
+       | "rms" -> (lege (sv_remove_suffix n a) f "n_<=_size()", sp (pre_count n (u a)))
+       | "copy" -> (lege (sv_copy n a b) f "pos_<=_size()", sp (pre_count n (u b)))
+       | _ -> (lege (sv_substr n a b) f "pos_<=_size()", sp (pre_count n (u a))))
   | "opt" ->
       let e = next_bool t in let o = next_str t in
-      if o = "arrow" || o = "carrow" || o = "refarrow" then (leg (opt_arrow e) "optional.hpp", sp (pre_opt_arrow e))
-      else (leg (opt_deref e) "optional.hpp", sp e)
+      if o = "arrow" || o = "carrow" || o = "refarrow" then (lege (opt_arrow e) "optional.hpp" "-", sp (pre_opt_arrow e))
+      else (lege (opt_deref e) "optional.hpp" "has_value()", sp e)
   | "exp" ->
       let h = next_bool t in let o = next_str t in
-      if o = "deref" || o = "cderef" then (leg (exp_deref h) "expected.hpp", sp h)
-      else (leg (exp_error h) "expected.hpp", sp (not h))
+      if o = "deref" || o = "cderef" || o = "rderef" || o = "crderef" then (lege (exp_deref h) "expected.hpp" "has_value()", sp h)
+      else (lege (exp_error h) "expected.hpp" "not_has_value()", sp (not h))
   | "var" ->
       let a = next_z t in let o = next_str t in let i = next_z t in
-      let g = if o = "sub" then var_subscript a i else var_unchecked_get a i in
-      (leg g "variant.hpp", sp (pre_variant a i))
+      let g = if o = "sub" || o = "csub" || o = "rsub" || o = "crsub" then var_subscript a i else var_unchecked_get a i in
+      (lege g "variant.hpp" (if String.length o >= 3 && String.sub o (String.length o - 3) 3 = "sub" then "I_==_this->index()" else "I_==_v.index()"), sp (pre_variant a i))
   | "div_sat" ->
       let _ = next_z t in let _ = next_z t in let y = next_z t in
-      (leg (div_sat_guard y) "div_sat.hpp", sp (big_of_z y <> Big.zero))
-  | "day" -> let d = next_z t in (leg (day_ctor d) "day.hpp", sp (Big.lt (big_of_z d) (Big.of_int 255) && Big.sign (big_of_z d) >= 0))
-  | "month" -> let d = next_z t in (leg (month_ctor d) "month.hpp", sp (Big.lt (big_of_z d) (Big.of_int 255) && Big.sign (big_of_z d) >= 0))
+      (lege (div_sat_guard y) "div_sat.hpp" "y_!=_0", sp (big_of_z y <> Big.zero))
+  | "day" -> let d = next_z t in (lege (day_ctor d) "day.hpp" "d_<=_etl::numeric_limits<etl::uint8_t>::max()", sp (Big.leq (big_of_z d) (Big.of_int 255) && Big.sign (big_of_z d) >= 0))
+  | "month" -> let d = next_z t in (lege (month_ctor d) "month.hpp" "m_<=_etl::numeric_limits<unsigned_char>::max()", sp (Big.leq (big_of_z d) (Big.of_int 255) && Big.sign (big_of_z d) >= 0))
   | "bit" ->
       let which = next_str t in let w = next_z t in let _ = next_z t in let pos = next_z t in
       let file = (match which with "set" | "set3" -> "set_bit" | "reset" -> "reset_bit" | "flip" -> "flip_bit" | _ -> "test_bit") ^ ".hpp" in
       let wi = Big.to_int (big_of_z w) in
       let posw = z_of_big (Big.erem (big_of_z pos) (Big.shift_left Big.one wi)) in
-      (leg (bit_guard w pos) file, sp (pre_index w posw))
+      (lege (bit_guard w pos) file "pos_<_static_cast<UInt>(etl::numeric_limits<UInt>::digits)", sp (pre_index w posw))
   | "bitset" ->
       let n = next_z t in let which = next_str t in let pos = next_z t in
-      let file = if String.length which > 0 && (which.[0] = 'u' || which = "bidx") then "basic_bitset.hpp" else "bitset.hpp" in
-      (leg (bitset_guard n pos) file, sp (pre_index n (u pos)))
-  | "arr" ->
+      let file = if String.length which > 0 && (which.[0] = 'u' || which = "bidx" || which = "cbidx") then "basic_bitset.hpp" else "bitset.hpp" in
+      (lege (bitset_guard n pos) file "pos_<_size()", sp (pre_index n (u pos)))
+  | "arr" | "carr" ->
       let i = next_z t in
       let safe = (try Sys.getenv "VERIF_C05_SAFE" = "1" with Not_found -> false) in
       let inr = pre_index (z_of_int 3) (u i) in
-      (leg (array_index safe (z_of_int 3) i) "array.hpp", sp inr)
+      (lege (array_index safe (z_of_int 3) i) "array.hpp" "pos_<_Size", sp inr)
   | "stride" ->
       let layout = next_str t in let r = next_z t in
-      (leg (layout_stride_guard (z_of_int 2) r) ("layout_" ^ layout ^ ".hpp"), sp (pre_index (z_of_int 2) (u r)))
+      (lege (layout_stride_guard (z_of_int 2) r) ("layout_" ^ layout ^ ".hpp") "r_<_extents_type::rank()", sp (pre_index (z_of_int 2) (u r)))
   | "cstr" ->
       let which = next_str t in let dn = next_bool t in let sn = next_bool t in
-      let ok = if which = "strchr" then not sn else nonnull2 (not dn) (not sn) in
-      (leg ok (which ^ ".hpp"), sp ok)
+      let ok = if which = "strchr" || which = "strchr_m" then not sn else nonnull2 (not dn) (not sn) in
+      let file = (if which = "strchr_m" then "strchr" else which) ^ ".hpp" in
+      ((if which = "strchr" || which = "strchr_m" then lege ok file "str_!=_nullptr"
+        else by_site (copy_ptrs_site (not dn) (not sn)) file "dest_!=_nullptr" "src_!=_nullptr"), sp ok)
 
-  | "str" ->
+  | "str" | "wstr" ->
       let cap = next_int t in let k = next_int t in let o = next_str t in
       let rec rest acc = if more t then rest (next_z t :: acc) else List.rev acc in
       let args = rest [] in
@@ -155,98 +166,110 @@ let run_case op t =
       let src n = take (small n) src_all in
       let cstr n = src n @ [Z0] in
       let zc = z_of_int cap in
+      let wide = (op = "wstr") in
+      let str_make c l n = if wide then str_make_w c l n else str_make c l n in
+      let str_ctor_fill c n ch = if wide then str_ctor_fill_w c n ch else str_ctor_fill c n ch in
       let s = match str_make zc (codes "abcdefghijklmnopqrst") (z_of_int k) with Ok s -> s | _ -> failwith "init" in
       let f = "basic_inplace_string.hpp" and fv = "basic_string_view.hpp" in
       let size = str_size s in
       let gt x y = Big.gt (big_of_z x) (big_of_z y) in
-      let of_res file r = match r with Ok _ -> "ok" | Contract -> "contract 1 # " ^ file | UB _ -> "ub" | OutOfFuel -> "fuel" in
-      let is_contract r = (match r with Contract -> true | _ -> false) in
-      let by_op ?(file = f) vo = (of_res file (str_step s vo), sp (str_pre_ok s vo)) in
+      (* where: (header, expression) of the check expected to fire if the call is stopped *)
+      let of_res (file, expr) r = match r with Ok _ -> "ok" | Contract -> "contract 1 # " ^ file ^ " " ^ expr | UB _ -> "ub" | OutOfFuel -> "fuel" in
+      let by_op where vo = (of_res where (str_step s vo), sp (str_pre_ok s vo)) in
       let z = z_of_int (Char.code 'z') in
+      let idx_le = (f, "index_<=_size()") and pos_le = (f, "pos_<=_size()") and svpos = (fv, "pos_<=_size()") in
+      let fits = (f, "static_cast<size_type>(last_-_first)_<=_capacity()_-_size()") in
+      let nonempty = (f, "not_empty()") in
       (match o with
-       | "ctor_ptr" -> let r = str_make zc src_all (ua 0) in (of_res f r, sp (not (gt (ua 0) zc)))
-       | "ctor_fill" -> let r = str_ctor_fill zc (ua 0) z in (of_res f r, sp (not (gt (ua 0) zc)))
-       | "asg_cstr" -> by_op (OAssignCstr (cstr (ua 0)))
-       | "asg_fill" -> by_op (OAssignFill (ua 0, z))
-       | "asg_ptr" -> by_op (OAssignPtr (src_all, ua 0))
-       | "asg_view_sub" -> by_op ~file:(if gt (ua 1) (ua 0) then fv else f) (OAssignViewSub (src (ua 0), ua 1, ua 2))
-       | "front" | "cfront" -> let r = str_front s in (of_res f r, sp (Big.sign (big_of_z size) > 0))
-       | "back" | "cback" -> let r = str_back s in (of_res f r, sp (Big.sign (big_of_z size) > 0))
-       | "idx" | "cidx" -> let r = str_index s (ua 0) in (of_res f r, sp (not (gt (ua 0) size)))
-       | "era_it" -> by_op (OEraseRange (ua 0, ua 1))
-       | "era_pos" -> by_op (OErasePos (ua 0))
-       | "era" -> by_op (OErase (ua 0, ua 1))
-       | "pb" -> by_op (OPushBack z)
-       | "pop" -> by_op OPopBack
-       | "ins_fill" -> by_op (OInsertFill (ua 0, ua 1, z))
-       | "ins_cstr" -> by_op (OInsertCstr (ua 0, cstr (ua 1)))
-       | "ins_ptr" -> by_op (OInsertPtr (ua 0, src_all, ua 1))
-       | "ins_str" | "ins_view" -> by_op (OInsertPtr (ua 0, src (ua 1), ua 1))
+       | "ctor_ptr" -> let r = str_make zc src_all (ua 0) in (of_res (f, "len_<=_Capacity") r, sp (not (gt (ua 0) zc)))
+       | "ctor_fill" -> let r = str_ctor_fill zc (ua 0) z in (of_res (f, "count_<=_Capacity") r, sp (not (gt (ua 0) zc)))
+       | "asg_cstr" -> by_op (f, "len_<=_capacity()") (OAssignCstr (cstr (ua 0)))
+       | "asg_fill" -> by_op (f, "count_<=_capacity()") (OAssignFill (ua 0, z))
+       | "asg_ptr" -> by_op (f, "count_<=_capacity()") (OAssignPtr (src_all, ua 0))
+       | "asg_view_sub" -> by_op (if gt (ua 1) (ua 0) then svpos else (f, "len_<=_Capacity")) (OAssignViewSub (src (ua 0), ua 1, ua 2))
+       | "front" | "cfront" -> let r = str_front s in (of_res nonempty r, sp (Big.sign (big_of_z size) > 0))
+       | "back" | "cback" -> let r = str_back s in (of_res nonempty r, sp (Big.sign (big_of_z size) > 0))
+       | "idx" | "cidx" -> let r = str_index s (ua 0) in (of_res (f, "index_<_size()_+_1") r, sp (not (gt (ua 0) size)))
+       | "era_it" -> by_op (if gt (ua 0) size then (f, "start_<=_size()") else (f, "distance_<=_size()_-_start")) (OEraseRange (ua 0, ua 1))
+       | "era_pos" -> by_op (if gt (ua 0) size then (f, "start_<=_size()") else (f, "distance_<=_size()_-_start")) (OErasePos (ua 0))
+       | "era" -> by_op idx_le (OErase (ua 0, ua 1))
+       | "pb" -> by_op (f, "size()_<_capacity()") (OPushBack z)
+       | "pop" -> by_op nonempty OPopBack
+       | "ins_fill" -> by_op idx_le (OInsertFill (ua 0, ua 1, z))
+       | "ins_cstr" -> by_op idx_le (OInsertCstr (ua 0, cstr (ua 1)))
+       | "ins_ptr" -> by_op idx_le (OInsertPtr (ua 0, src_all, ua 1))
+       | "ins_str" -> by_op idx_le (OInsertPtr (ua 0, src (ua 1), ua 1))
+       | "ins_view" -> by_op pos_le (OInsertPtr (ua 0, src (ua 1), ua 1))
        | "ins_str_sub" | "ins_view_sub" ->
-           by_op ~file:(if gt (ua 0) size then f else fv) (OInsertStrSub (ua 0, src (ua 1), ua 2, ua 3))
-       | "rep" -> let r = str_replace s (ua 0) (ua 1) (src (ua 2)) in (of_res f r, sp (not (gt (ua 0) size)))
+           by_op (if gt (ua 0) size then idx_le else svpos) (OInsertStrSub (ua 0, src (ua 1), ua 2, ua 3))
+       | "rep" -> let r = str_replace s (ua 0) (ua 1) (src (ua 2)) in (of_res pos_le r, sp (not (gt (ua 0) size)))
        | "rep5" -> let r = str_replace5 s (ua 0) (ua 1) (src (ua 2)) (ua 3) (ua 4) in
-                   (of_res f r, sp (not (gt (ua 0) size) && not (gt (ua 3) (ua 2))))
-       | "rep_ptr" -> let r = str_replace_ptr s (ua 0) (ua 1) src_all (ua 2) in (of_res f r, sp (not (gt (ua 0) size)))
-       | "rep_cstr" -> let r = str_replace_cstr s (ua 0) (ua 1) (cstr (ua 2)) in (of_res f r, sp (not (gt (ua 0) size)))
-       | "app_view_sub" -> by_op ~file:fv (OAppendViewSub (src (ua 0), ua 1, ua 2))
-       | "app_str" | "pluseq_str" -> by_op (OAppendStr (src (ua 0)))
-       | "app_str_sub" -> by_op (OAppendStrSub (src (ua 0), ua 1, ua 2))
-       | "app_rng" -> by_op (OAppendRange (src (ua 0)))
-       | "app_fill" -> by_op (OAppendFill (ua 0, z))
-       | "app_ptr" -> by_op (OAppendPtr (src_all, if gt (ua 0) (z_of_int 26) then z_of_int 26 else ua 0))
-       | "resize" -> by_op (OResize (ua 0, z))
-       | "substr" -> by_op (OSubstr (ua 0, ua 1))
-       | "clear" -> by_op OClear
+                   (of_res (if gt (ua 0) size then pos_le else (f, "pos2_<=_str.size()")) r, sp (not (gt (ua 0) size) && not (gt (ua 3) (ua 2))))
+       | "rep_ptr" -> let r = str_replace_ptr s (ua 0) (ua 1) src_all (ua 2) in (of_res pos_le r, sp (not (gt (ua 0) size)))
+       | "rep_cstr" -> let r = str_replace_cstr s (ua 0) (ua 1) (cstr (ua 2)) in (of_res pos_le r, sp (not (gt (ua 0) size)))
+       | "app_view_sub" -> by_op svpos (OAppendViewSub (src (ua 0), ua 1, ua 2))
+       | "app_str" | "pluseq_str" -> by_op fits (OAppendStr (src (ua 0)))
+       | "app_str_sub" -> by_op fits (OAppendStrSub (src (ua 0), ua 1, ua 2))
+       | "app_rng" -> by_op fits (OAppendRange (src (ua 0)))
+       | "app_rng_rev" -> let ok = Big.sign (big_of_z (ua 0)) = 0 in (lege ok f "last_-_first_>=_0", sp ok)
+       | "app_fill" -> by_op fits (OAppendFill (ua 0, z))
+       | "app_ptr" -> by_op fits (OAppendPtr (src_all, if gt (ua 0) (z_of_int 26) then z_of_int 26 else ua 0))
+       | "resize" -> by_op fits (OResize (ua 0, z))
+       | "substr" -> by_op fits (OSubstr (ua 0, ua 1))
+       | "clear" -> by_op fits OClear
        | _ -> raise Not_found)
   | "sset" ->
       let d = next_z t in
-      (leg (static_set_ctor (z_of_int 4) d) "static_set.hpp", sp (pre_range_fits (z_of_int 4) d))
+      (by_site (static_set_ctor_site (z_of_int 4) d) "static_set.hpp" "last_-_first_>=_0" "static_cast<size_type>(last_-_first)_<=_max_size()",
+       sp (pre_range_fits (z_of_int 4) d))
   | "cpy" ->
       let which = next_str t in let dn = next_bool t in let sn = next_bool t in
-      (leg (copy_ptrs_guard (not dn) (not sn)) (which ^ ".hpp"), sp (pre_both_nonnull (not dn) (not sn)))
+      (by_site (copy_ptrs_site (not dn) (not sn)) (which ^ ".hpp") "dest_!=_nullptr" "src_!=_nullptr", sp (pre_both_nonnull (not dn) (not sn)))
   | "linalg" ->
       let which = next_str t in
       let rec rest acc = if more t then rest (next_z t :: acc) else List.rev acc in
       let e = Array.of_list (rest []) in
+      let xy = "x.extents()_==_y.extents()" and xz = "x.extents()_==_z.extents()" in
       (match which with
-       | "add1" -> (leg (linalg_add_guard [e.(0)] [e.(1)] [e.(2)]) "blas1_add.hpp", sp (e.(0) = e.(1) && e.(0) = e.(2)))
-       | "copy1" -> (leg (linalg_copy_guard [e.(0)] [e.(1)]) "blas1_copy.hpp", sp (e.(0) = e.(1)))
-       | "swap1" -> (leg (linalg_swap_guard [e.(0)] [e.(1)]) "blas1_swap_elements.hpp", sp (e.(0) = e.(1)))
-       | "add2" -> (leg (linalg_add_guard [e.(0); e.(1)] [e.(2); e.(3)] [e.(4); e.(5)]) "blas1_add.hpp",
+       | "add1" -> (by_site (linalg_add_site [e.(0)] [e.(1)] [e.(2)]) "blas1_add.hpp" xy xz, sp (e.(0) = e.(1) && e.(0) = e.(2)))
+       | "copy1" -> (lege (linalg_copy_guard [e.(0)] [e.(1)]) "blas1_copy.hpp" xy, sp (e.(0) = e.(1)))
+       | "swap1" -> (lege (linalg_swap_guard [e.(0)] [e.(1)]) "blas1_swap_elements.hpp" xy, sp (e.(0) = e.(1)))
+       | "add2" -> (by_site (linalg_add_site [e.(0); e.(1)] [e.(2); e.(3)] [e.(4); e.(5)]) "blas1_add.hpp" xy xz,
                     sp ([e.(0); e.(1)] = [e.(2); e.(3)] && [e.(0); e.(1)] = [e.(4); e.(5)]))
-       | "copy2" -> (leg (linalg_copy_guard [e.(0); e.(1)] [e.(2); e.(3)]) "blas1_copy.hpp", sp ([e.(0); e.(1)] = [e.(2); e.(3)]))
-       | "swap2" -> (leg (linalg_swap_guard [e.(0); e.(1)] [e.(2); e.(3)]) "blas1_swap_elements.hpp", sp ([e.(0); e.(1)] = [e.(2); e.(3)]))
-       | "mvp" -> (leg (linalg_mvp_guard e.(0) e.(1) e.(2) e.(3)) "blas2_matrix_vector_product.hpp", sp (e.(1) = e.(2) && e.(0) = e.(3)))
+       | "copy2" -> (lege (linalg_copy_guard [e.(0); e.(1)] [e.(2); e.(3)]) "blas1_copy.hpp" xy, sp ([e.(0); e.(1)] = [e.(2); e.(3)]))
+       | "swap2" -> (lege (linalg_swap_guard [e.(0); e.(1)] [e.(2); e.(3)]) "blas1_swap_elements.hpp" xy, sp ([e.(0); e.(1)] = [e.(2); e.(3)]))
+       | "mvp" -> (by_site (linalg_mvp_site e.(0) e.(1) e.(2) e.(3)) "blas2_matrix_vector_product.hpp" "a.extent(1)_==_x.extent(0)" "a.extent(0)_==_y.extent(0)",
+                   sp (e.(1) = e.(2) && e.(0) = e.(3)))
        | _ -> raise Not_found)
   | "sstride" ->
       let r = next_z t in
-      (leg (layout_stride_stride_guard (z_of_int 2) r) "layout_stride.hpp", sp (pre_index (z_of_int 2) (u r)))
+      (lege (layout_stride_stride_guard (z_of_int 2) r) "layout_stride.hpp" "i_<_extents_type::rank()", sp (pre_index (z_of_int 2) (u r)))
   | "bsstr" ->
       let chars = next_zlist t in let pos = next_z t in let n = next_z t in
       let zero = z_of_int 48 and one = z_of_int 49 in
-      (leg (bitset_str_guard chars pos n zero one) "bitset.hpp", sp (pre_bitset_str chars (u pos) (u n) zero one))
+      (by_site (bitset_str_site chars pos n zero one) "bitset.hpp" "pos_<=_str.size()" "Traits::eq(str[pos_+_i],_zero)_or_Traits::eq(str[pos_+_i],_one)",
+       sp (pre_bitset_str chars (u pos) (u n) zero one))
   | "tostr" ->
       let cap = next_z t in let ty = next_str t in let v = next_z t in
       let v = if ty = "int" then (let b = Big.erem (big_of_z v) (Big.shift_left Big.one 32) in
                                   z_of_big (if Big.geq b (Big.shift_left Big.one 31) then Big.sub b (Big.shift_left Big.one 32) else b)) else v in
       (match to_string_guard cap v with
-       | Some ok -> (leg ok "to_string.hpp", sp (pre_to_string cap v))
+       | Some ok -> (lege ok "to_string.hpp" "res.error_==_etl::strings::from_integer_error::none", sp (pre_to_string cap v))
        | None -> ("fuel", sp (pre_to_string cap v)))
   | "exparrow" ->
-      let h = next_bool t in let _ = next_str t in (leg (exp_arrow h) "expected.hpp", sp (pre_exp_arrow h))
+      let h = next_bool t in let _ = next_str t in (lege (exp_arrow h) "expected.hpp" "-", sp (pre_exp_arrow h))
   | "arrfb" ->
       let n = next_z t in let o = next_str t in
       let safe = (try Sys.getenv "VERIF_C05_SAFE" = "1" with Not_found -> false) in
-      let g = (match o with
-        | "front" | "cfront" -> array_front n
-        | "back" | "cback" -> array_back n
-        | _ -> if Big.sign (big_of_z n) = 0 then array0_index safe else array_index safe n Z0) in
-      (leg g "array.hpp", sp (pre_nonempty n))
+      let (g, e) = (match o with
+        | "front" | "cfront" -> (array_front n, "Size_!=_0")
+        | "back" | "cback" -> (array_back n, "Size_!=_0")
+        | _ -> if Big.sign (big_of_z n) = 0 then (array0_index safe, "Size_!=_0") else (array_index safe n Z0, "pos_<_Size")) in
+      (lege g "array.hpp" e, sp (pre_nonempty n))
   | "fmt" ->
       let chars = next_zlist t in
       (match format_escaped_guard chars with
-       | Some ok -> (leg ok "argument.hpp", "na")
+       | Some ok -> (lege ok "argument.hpp" "false", "na")
        | None -> ("fuel", "na"))
   | _ -> raise Not_found
 
